@@ -7,7 +7,7 @@ if ! git -C /repo diff --quiet; then echo "/repo has uncommitted changes; refusi
 git -C /repo apply "$P" || { echo "patch does not apply to /repo"; exit 2; }
 trap 'git -C /repo checkout -q -- .' EXIT
 for id in "$@"; do
-  out=$(./check $id --tier ${TIER:-quick} 2>&1); rc=$?
+  out=$(DX_NO_EVIDENCE=1 ./check $id --tier ${TIER:-quick} 2>&1); rc=$?
   echo "MUTANT $(basename $(dirname $P))/$(basename $(dirname $(dirname $(dirname $P)))) check=$id rc=$rc :: $(echo "$out" | grep -E "^$id tier" | cut -c1-200)"
   echo "$out" | grep -E "^  [a-z-]+ ::" | head -${SHOW:-2} | cut -c1-300
 done
